@@ -304,6 +304,7 @@ class State:
         self.entry_mark = 0       # index into pc where the current function body starts
         self.entry_serial = 0     # fresh-constant serial at entry of the current function body
         self.nondec = set()       # indices into pc of assumptions that are not branch decisions
+        self.tags = {}            # pc index -> tag ("pre.<clause>", "call:<callee>.post.<clause>") for slicing
 
     def fork(self):
         s = State.__new__(State)
@@ -320,20 +321,32 @@ class State:
         s.entry_mark = self.entry_mark
         s.entry_serial = self.entry_serial
         s.nondec = set(self.nondec)
+        s.tags = dict(self.tags)
         return s
 
-    def assume(self, c, why=None, decision=True):
+    def assume(self, c, why=None, decision=True, tag=None):
         """decision=False marks consequences/definitions (callee postconditions, definitional facts,
         invariants) as opposed to branch decisions; only decisions (plus the definitions of the auxiliary
         constants they mention) make up the condition under which a value is yielded."""
         if not decision:
             self.nondec.add(len(self.pc))
+        if tag:
+            self.tags[len(self.pc)] = tag
         self.pc.append(c)
         if why:
             self.trace.append(why)
 
-    def define(self, c):
-        self.assume(c, decision=False)
+    def define(self, c, tag=None):
+        self.assume(c, decision=False, tag=tag)
+
+    def sliced_assumptions(self, keep):
+        """assumptions with tagged entries filtered by keep(tag) (untagged entries are always kept)"""
+        out = list(self.facts)
+        for i, f in enumerate(self.pc):
+            t = self.tags.get(i)
+            if t is None or keep(t):
+                out.append(f)
+        return out
 
     def assumptions(self):
         return list(self.facts) + list(self.pc)
